@@ -174,7 +174,10 @@ theorem C16_finite (fn : Fn) (hfn : fn = .sin ∨ fn = .cos ∨ fn = .tan ∨ fn
           | error e => simp [hlx, hlb, bind, Except.bind] at hh
           | ok lb =>
             simp only [hlx, hlb, bind, Except.bind] at hh
-            exact fin_simplify_finite (lx / lb) v hh
+            by_cases hz : (lb == 0) = true
+            · simp [hz] at hh
+            · simp only [hz, Bool.false_eq_true, if_false] at hh
+              exact fin_simplify_finite (lx / lb) v hh
   unfold applyNum at h
   rcases hfn with rfl | rfl | rfl | rfl | rfl | rfl | rfl
   · exact htrig _ h
